@@ -585,6 +585,27 @@ Proof.
     + apply epath_sym1. auto.
 Qed.
 
+(* a single epsilon edge cur -> cont: the only word is [] *)
+Lemma spec_eps1 : forall (NE : Prop) n cur cont n',
+  pre n cur cont -> add_empty_transition n cur cont = Ok n' ->
+  spec NE (fun w => w = []) n cur cont n'.
+Proof.
+  intros NE n cur cont n' (Lc & Lk & Dc & W) H.
+  destruct (ext_eps _ _ _ _ H Lc) as [Ln X].
+  exists (one cur None cont). split; [|split; [|split]].
+  - eapply ext_equiv; [|exact X]. unfold one. tauto.
+  - intros s x t (-> & _ & ->). auto.
+  - intros w Ww. split.
+    + intros P. apply epath_first in P.
+      destruct P as [[E1 _]|[(t & (_ & _ & Et) & P)|(x & t & w' & _ & (_ & Ex & _) & _)]].
+      * congruence.
+      * subst t. apply epath_sink in P; [tauto|]. intros x t (E1 & _). congruence.
+      * discriminate.
+    + intros ->. apply epath_eps1. unfold one. auto.
+  - intros _ s [->|F]; [|rlia].
+    exists []. split; [constructor|]. apply epath_eps1. unfold one. auto.
+Qed.
+
 (* language combinators *)
 Definition Lcat (L1 L2 : list sym -> Prop) (w : list sym) : Prop :=
   exists u v, w = u ++ v /\ L1 u /\ L2 v.
@@ -943,7 +964,7 @@ Qed.
 Fixpoint leaves_wf (benv : builtin_env) (r : regex) : bool :=
   match r with
   | RVar _ => false
-  | RString s => match s with [] => false | _ :: _ => true end
+  | RString _ => true
   | RCharSet l => forallb cor_ok l
   | RStar a | RPlus a | ROpt a => leaves_wf benv a
   | RCat a b | ROr a b => leaves_wf benv a && leaves_wf benv b
@@ -1056,10 +1077,12 @@ Proof.
 Qed.
 
 Lemma add_string_spec : forall s n cur cont n',
-  s <> [] -> pre n cur cont -> add_string n s cur cont = Ok n' ->
+  pre n cur cont -> add_string n s cur cont = Ok n' ->
   spec (Forall (fun c => (c <= CHAR_MAX)%N) s) (fun w => w = map Chr s) n cur cont n'.
 Proof.
-  induction s as [|c rest IH]; intros n cur cont n' NE Pre H; [congruence|].
+  induction s as [|c rest IH]; intros n cur cont n' Pre H.
+  { (* the empty literal: one epsilon edge *)
+    cbn [add_string] in H. cbn [map]. eapply spec_eps1; eassumption. }
   destruct rest as [|c2 rest].
   - cbn [add_string] in H. eapply spec_weaken; [| |eapply spec_char1; eassumption].
     + intros F. inversion F; assumption.
@@ -1074,7 +1097,7 @@ Proof.
     pose proof (spec_char1 _ _ _ _ _ Pre1 H1) as S1.
     destruct (spec_wf _ _ _ _ _ _ Pre1 S1) as [W2 Le2].
     assert (Pre2 : pre n2 (length n) cont) by (repeat split; try lia; assumption).
-    assert (S2 := IH n2 (length n) cont n' ltac:(discriminate) Pre2 H2).
+    assert (S2 := IH n2 (length n) cont n' Pre2 H2).
     eapply spec_weaken; [| |eapply spec_seq; eassumption].
     + intros F. inversion F; subst. auto.
     + intros w _. split.
@@ -1298,10 +1321,9 @@ Proof.
   intros fuel s r' n cur cont n' X K Pre H.
   rewrite expand_leaf in X by exact I. injection X as <-. rewrite add_re_string in H.
   cbn [leaves_wf] in K.
-  eapply spec_weaken; [| |eapply add_string_spec; [|eassumption..]].
+  eapply spec_weaken; [| |eapply add_string_spec; eassumption].
   - cbn [classes_nonempty]. tauto.
   - intros w _. rewrite lang_string_iff. tauto.
-  - destruct s; [discriminate|discriminate].
 Qed.
 
 Lemma case_charset : forall fuel l, add_re_ok fuel (RCharSet l).
